@@ -301,6 +301,36 @@ UELaw == \A i \in 1..Len(UESeq) :
   \/ (UEOut(i).status = "value" /\ UEOut(i).v = UESeq[i][3])
   \/ (PrintT(<<"UELAW", UESeq[i], UEOut(i)>>) /\ FALSE)
 
+\* ---------------------------------------------------------------- sequences that contain () and arrays
+\* () is an element like any other: a fold does not end at it, a callback without a result yields it; a type filter for an
+\* array type keeps exactly the arrays whose run-time element type fits ([] - the empty-array type - only empty arrays)
+IU == WMulti(<<WInt, WVoid>>)
+VoidSrc == Hide(WArr(IU), ArrE(<<I(1), Unit, I(2), Unit, I(3)>>))
+\* (the checker wants the reducer to take init | element at both positions: the parameters are `any' and narrowed inside)
+FoldIU == FnE(<<P("a", WAny), P("x", WAny)>>, WInt,
+              <<Mark(7), IfSet("ya", WInt, V("a"), Block(<<Ret(IfSet("y", WInt, V("x"), Bin("+", V("ya"), V("y")), Bin("+", V("ya"), I(100))))>>), NoneV), Ret(I(-1))>>)
+AnyArr == Hide(WArr(WAny), ArrE(<<I(1), ArrE(<<>>), S(<<115>>), ArrE(<<I(2)>>), F(5), ArrE(<<ArrE(<<>>)>>), ArrE(<<>>)>>))
+SpecialProg(k) ==
+  CASE k = "fold-over-void" -> <<ReduceE(IterE(VoidSrc), I(0), FoldIU)>>
+    [] k = "fold-over-void-results" ->
+         <<FnDecl("note", <<P("x", WInt)>>, WVoid, <<Mark(8)>>),
+           ReduceE(MapE(IterE(Hide(WArr(WInt), ArrE(<<I(1), I(2), I(3)>>))), V("note")), I(0),
+                   FnE(<<P("a", WAny), P("x", WAny)>>, WInt, <<Mark(7), IfSet("ya", WInt, V("a"), Block(<<Ret(Bin("+", V("ya"), I(1)))>>), NoneV), Ret(I(-1))>>))>>
+    [] k = "collect-void" -> <<Set("r", CollectE(IterE(VoidSrc))), IfSet("q", WArr(IU), V("r"), RedE("$+", "int", TFilterE(IterE(V("q")), WInt)), I(-1))>>
+    [] k = "for-over-void" -> <<Set("n", MutE(WInt, I(0))), For("e", IterE(VoidSrc), Block(<<Asg("+=", V("n"), I(1))>>)), Deref(V("n"))>>
+    [] k = "filter-void" -> <<Set("r", CollectE(TFilterE(IterE(VoidSrc), WVoid))), IfSet("q", WArr(WVoid), V("r"), I(1), I(0))>>
+    [] k = "tfilter-empty-array-type" -> <<Set("r", CollectE(TFilterE(IterE(AnyArr), WArr(WNever)))), Set("m", MutE(WInt, I(0))), For("e", IterE(V("r")), Block(<<Asg("+=", V("m"), I(1))>>)), Deref(V("m"))>>
+    [] k = "tfilter-int-array-type" -> <<Set("r", CollectE(TFilterE(IterE(AnyArr), WArr(WInt)))), Set("m", MutE(WInt, I(0))), For("e", IterE(V("r")), Block(<<Asg("+=", V("m"), I(1))>>)), Deref(V("m"))>>
+    [] k = "tfilter-any-array-type" -> <<Set("r", CollectE(TFilterE(IterE(AnyArr), WArr(WAny)))), Set("m", MutE(WInt, I(0))), For("e", IterE(V("r")), Block(<<Asg("+=", V("m"), I(1))>>)), Deref(V("m"))>>
+    [] k = "tfilter-nested-empty-array-type" -> <<Set("r", CollectE(TFilterE(IterE(AnyArr), WArr(WArr(WNever))))), Set("m", MutE(WInt, I(0))), For("e", IterE(V("r")), Block(<<Asg("+=", V("m"), I(1))>>)), Deref(V("m"))>>
+SpecialSeq == << <<"fold-over-void", 206>>, <<"fold-over-void-results", 3>>, <<"collect-void", 6>>, <<"for-over-void", 5>>, <<"filter-void", 1>>,
+                 <<"tfilter-empty-array-type", 2>>, <<"tfilter-int-array-type", 3>>, <<"tfilter-any-array-type", 4>>,
+                 <<"tfilter-nested-empty-array-type", 3>> >>
+SpecialOut(i) == Outcome(Run(SpecialProg(SpecialSeq[i][1]), Fuel))
+SpecialLaw == \A i \in 1..Len(SpecialSeq) :
+  \/ (SpecialOut(i).status = "value" /\ SpecialOut(i).v = IntV(SpecialSeq[i][2]))
+  \/ (PrintT(<<"SPECIALLAW", SpecialSeq[i], SpecialOut(i)>>) /\ FALSE)
+
 \* ---------------------------------------------------------------- callbacks that FAIL on one element
 \* pz(x) = 8 / x > 2 (fails on 0), fz(x) = 8 / x, gz(a, x) = a + 8 / x; log 600 + x before the division.  The error of a
 \* callback is the error of the whole operator: nothing after the failing element is pulled or applied.
@@ -328,7 +358,7 @@ ErrLaw == \A i \in 1..Len(ErrSeq) :
 
 Emit ==
   /\ TLCGet("stats").distinct > 0
-  /\ UniLaw /\ ErrLaw /\ UELaw
+  /\ UniLaw /\ ErrLaw /\ UELaw /\ SpecialLaw
   /\ ndJsonSerialize(IOEnv.VERIF_OUT \o "/c11_cases.ndjson",
         [i \in 1..N |-> [id |-> "c11-" \o ToString(i), suite |-> "c11", prog |-> Prog(CaseSeq[i]), exp |-> Out(i)]]
         \o [i \in 1..Len(UniSeq) |-> [id |-> "c11-union-iter-" \o ToString(i), suite |-> "c11",
@@ -336,6 +366,8 @@ Emit ==
         \o [i \in 1..Len(ErrSeq) |-> [id |-> "c11-failing-callback-" \o ToString(i), suite |-> "c11",
                                       prog |-> ErrProg(ErrSeq[i][1], ErrSeq[i][2]), exp |-> ErrOut(i)]]
         \o [i \in 1..Len(UESeq) |-> [id |-> "c11-union-iter-empty-" \o ToString(i), suite |-> "c11",
-                                     prog |-> UEProg(UESeq[i][1], UESeq[i][2]), exp |-> UEOut(i)]])
+                                     prog |-> UEProg(UESeq[i][1], UESeq[i][2]), exp |-> UEOut(i)]]
+        \o [i \in 1..Len(SpecialSeq) |-> [id |-> "c11-special-" \o SpecialSeq[i][1], suite |-> "c11",
+                                     prog |-> SpecialProg(SpecialSeq[i][1]), exp |-> SpecialOut(i)]])
   /\ PrintT(<<"CASES", N, Len(CaseSeq0)>>)
 =============================================================================
